@@ -29,6 +29,8 @@ func TestFamily(t *testing.T) {
 		scs = beatScenarios(seed, EnvInt("VERIF_NRANDOM", 40))
 	case "flow", "life", "upg", "poll":
 		scs = append(replayFamily(behs), scriptFamily(fam, seed, EnvInt("VERIF_NRANDOM", 40))...)
+	case "dreq": // data requests as goroutines of their own: model behaviours, and the poll scripts under another seed
+		scs = append(replayFamily(behs), scriptFamily("poll", seed+7, EnvInt("VERIF_NRANDOM", 40))...)
 	case "reg":
 		scs = regFamily(behs)
 	case "grace":
